@@ -912,6 +912,37 @@ def check_spellings(case):
     return dict(nt=compared > 0, cls=cls, ratio=worst)
 
 
+# ------------------------------------------------------------------ ties (enumerated)
+
+
+def ties_runner(shard, nshards, tier, stats):
+    """Element sets and dates EXACTLY on the switches of the model, drawn on purpose (a random draw never
+    lands on them): e = 1e-4 (and one printed unit either side), n = 6.4 rev/day (period 225 min) and one
+    unit above, e = 0, i = 0 / 180 deg, B* = 0; low orbits with strong drag so that the branch taken
+    matters; dates exactly at the epoch, one microsecond off, and days away."""
+    base = dict(name=None, cat=7, desig=None, eyy=0, eday=100000000 + 50000000, ndot=0, nddot=dict(s=1, m=0, x=0),
+                elnum=1, rev=1, raan=123456, argp=300000, ma=2000000)
+    k = 0
+    for ecc in (0, 999, 1000, 1001):
+        for n in (1600000000, 1550000000, 640000001, 640000000):
+            for inc in (516000, 0, 1800000):
+                for bstar in (dict(s=1, m=10000, x=-2), dict(s=1, m=50000, x=-4), dict(s=1, m=0, x=0)):
+                    for dt in (0, 1, -1, DAY_US, -3 * DAY_US, 10 * DAY_US):
+                        k += 1
+                        if k % nshards != shard:
+                            continue
+                        f = dict(base, ecc=ecc, n=n, inc=inc, bstar=bstar)
+                        yield dict(tle=f, dt_us=dt, mode="direct", kind="native" if n > 640000001 else "wrapper")
+    stats.exhaustive = True
+
+
+def check_tie(case):
+    res = check_native(case) if case["kind"] == "native" else check_wrapper(case)
+    f = case["tle"]
+    res["cls"] = list(res.get("cls", [])) + [f"tie:e={f['ecc']}e-7", f"tie:n={f['n'] / 1e8:.8f}", f"tie:dt={case['dt_us']}us"]
+    return res
+
+
 FACETS = [
     Facet("wrapper_near_earth", case_strategy("near", ("direct", "direct", "timedelta")), check_wrapper, setup=_eop,
           rule="|offset| > 1 min, reference error code 0", quick=(6, 500), thorough=(16, 8000)),
@@ -924,6 +955,10 @@ FACETS = [
           check_wrapper, setup=_eop,
           rule="|offset| > 1 min; the orbit is copied, converted, or shares its propagator before propagating",
           quick=(6, 300), thorough=(16, 4000)),
+    Facet("ties", check=check_tie, runner=ties_runner, setup=_eop,
+          rule="reference error code 0: element sets exactly on the model's switches (e = 1e-4 +- 1 unit, 225 min, "
+               "e = 0, i = 0 / 180 deg, B* = 0) at dates exactly at / 1 us off / days from the epoch - enumerated",
+          quick=(2, 0), thorough=(2, 0)),
     Facet("spellings", lambda shard, tier: spelling_case(), check_spellings, setup=_eop,
           rule="at least one state compared; same element set and instant said another way: label of the target "
                "date and of the orbit's date (6 scales), target within 140 s of a UTC midnight / turn of the year / "
